@@ -132,6 +132,7 @@ func scenarioFiles(cases []*e1Case, harnessExtra string) map[string]string {
 	files["ext/ext.go"] = extSrc
 	files["ext2/ext/ext.go"] = ext2Src
 	files["geo/v2/geo.go"] = geoSrc
+	files["same/p/p.go"] = sameSrc
 	decls := map[string]string{}
 	var sb strings.Builder
 	for _, c := range cases {
@@ -227,7 +228,8 @@ func main() {
 func importsFor(body string) string {
 	var sb strings.Builder
 	e1, e2, e3 := strings.Contains(body, "ext."), strings.Contains(body, "ext2."), strings.Contains(body, "geo.")
-	if !e1 && !e2 && !e3 {
+	e4 := strings.Contains(body, "p.Item")
+	if !e1 && !e2 && !e3 && !e4 {
 		return ""
 	}
 	sb.WriteString("import (\n")
@@ -239,6 +241,9 @@ func importsFor(body string) string {
 	}
 	if e3 {
 		sb.WriteString("\t\"example.com/v/geo/v2\"\n")
+	}
+	if e4 {
+		sb.WriteString("\t\"example.com/v/same/p\"\n")
 	}
 	sb.WriteString(")\n\n")
 	return sb.String()
